@@ -89,32 +89,27 @@ Proof.
 Qed.
 
 (* ---- ... and on the text of a single value (toml::ser::ValueSerializer) ---- *)
-Definition root_tuple_variant (t : ty) (v : sval) : Prop :=
-  exists n vs i p vn ts, t = TEnum n vs /\ v = SVariant i p /\ nth_error vs i = Some (vn, VTuple ts).
-
 Lemma value_text_cases t v x : has_type v t -> ser_value_text t v = Ok x ->
-  root_tuple_variant t v
-  \/ (exists k d, t = TDatetime k /\ v = SDt d /\ x = VTab [(DT_FIELD, VStr (display_datetime d))])
+  (exists k d, t = TDatetime k /\ v = SDt d /\ x = VTab [(DT_FIELD, VStr (display_datetime d))])
   \/ ser_value t v = Ok x.
 Proof.
   intros Hty H. unfold has_type in Hty.
-  destruct t; try (right; right; destruct v; exact H).
-  - destruct v; try (right; right; exact H). simpl in H. injection H as <-. right; left. eauto.
-  - destruct v; try (right; right; exact H). right; right. rewrite sv_struct.
+  destruct t; try (right; destruct v; exact H).
+  - destruct v; try (right; exact H). simpl in H. injection H as <-. left. eauto.
+  - destruct v; try (right; exact H). right. rewrite sv_struct.
     rewrite ht_struct in Hty. apply andb_true_iff in Hty as [Hty _]. apply andb_true_iff in Hty as [Hpriv _].
     apply negb_true_iff in Hpriv. rewrite (private_not_dt name Hpriv). exact H.
-  - destruct v as [| | | | | | | | | | | | | |i p]; try (right; right; exact H). simpl in H.
+  - destruct v as [| | | | | | | | | | | | | |i p]; try (right; exact H). simpl in H.
     match type of H with pick ?f ?d vs i = _ => destruct (pick_cases f d vs i) as [([vn var] & Hn & E)|[_ E]]; rewrite E in H end;
       [|discriminate H].
-    simpl in H. destruct var; try discriminate H; try (right; right; exact H).
-    left. exists name, vs, i, p, vn, ts. auto.
+    simpl in H. destruct var; try discriminate H; right; exact H.
 Qed.
 
-Theorem on_serialized_value t v x : has_type v t -> ser_value_text t v = Ok x -> ~ root_tuple_variant t v ->
+Theorem on_serialized_value t v x : has_type v t -> ser_value_text t v = Ok x ->
   (forall r, r = R_tvd \/ r = R_evd -> exists v', decode r t x = Ok v' /\ sval_eq v v')
   /\ (tunnel_free x = true -> exists v', decode R_tvdval t x = Ok v' /\ sval_eq v v').
 Proof.
-  intros Hty H Hn. destruct (value_text_cases t v x Hty H) as [Hc|[(k & d & -> & -> & ->)|Hv]]; [contradiction| |].
+  intros Hty H. destruct (value_text_cases t v x Hty H) as [(k & d & -> & -> & ->)|Hv].
   - split.
     + intros r Hr. assert (decode r (TDatetime k) (VTab [(DT_FIELD, VStr (display_datetime d))])
                            = de_value (TDatetime k) (VTab [(DT_FIELD, VStr (display_datetime d))])) as -> by (destruct Hr as [-> | ->]; reflexivity).
@@ -128,20 +123,16 @@ Proof.
       apply (tv_roundtrip_supported t v y Hty (ser_ok_supported t v x Hty Hv) T).
 Qed.
 
-(* FINDING C13-valueser-root-tuple-variant: toml::ser::ValueSerializer::serialize_tuple_variant is
-   `self.serialize_seq(Some(len))` — a tuple variant at the root is written as a bare array, its name
-   dropped, and no value deserializer reads the text back.    enum E { T(i32, i32) }   E::T(1, 2) -> [1, 2] *)
+(* the former witness of C13-valueser-root-tuple-variant (repaired): enum E { T(i32, i32) }, E::T(1, 2) is
+   written as { T = [1, 2] } — what toml_edit's ValueSerializer writes — and reads back *)
 Definition tvr_ty : ty := TEnum (str "E") [(str "T", VTuple [TInt TI32; TInt TI32])].
 Definition tvr_val : sval := SVariant 0 (SSeq [SInt 1; SInt 2]).
 
-Theorem on_serialized_value_refuted :
-  exists t v x,
-    has_type v t /\ root_tuple_variant t v /\ ser_value_text t v = Ok x
-    /\ x = VArr [VInt 1; VInt 2]
-    /\ ser_value t v = Ok (VTab [(str "T", x)])
-    /\ decode R_tvd t x = Err EDe /\ decode R_evd t x = Err EDe /\ decode R_tvdval t x = Err EDe.
-Proof.
-  exists tvr_ty, tvr_val, (VArr [VInt 1; VInt 2]). repeat split; try (vm_compute; reflexivity).
-  exists (str "E"), [(str "T", VTuple [TInt TI32; TInt TI32])], 0%nat, (SSeq [SInt 1; SInt 2]), (str "T"), [TInt TI32; TInt TI32].
-  repeat split.
-Qed.
+Theorem on_serialized_value_tuple_variant :
+  has_type tvr_val tvr_ty
+  /\ ser_value_text tvr_ty tvr_val = Ok (VTab [(str "T", VArr [VInt 1; VInt 2])])
+  /\ ser_value_text tvr_ty tvr_val = ser_value tvr_ty tvr_val
+  /\ decode R_tvd tvr_ty (VTab [(str "T", VArr [VInt 1; VInt 2])]) = Ok tvr_val
+  /\ decode R_evd tvr_ty (VTab [(str "T", VArr [VInt 1; VInt 2])]) = Ok tvr_val
+  /\ decode R_tvdval tvr_ty (VTab [(str "T", VArr [VInt 1; VInt 2])]) = Ok tvr_val.
+Proof. repeat split; vm_compute; reflexivity. Qed.
